@@ -29,6 +29,22 @@ import (
 	"github.com/uber/kraken/tracker/metainfoclient"
 )
 
+// storedTorrentMeta is the metainfo file of a torrent. It remembers whether the
+// content found on disk could not be decoded, which happens when the process
+// died after creating the file but before writing it. Such a file must be
+// treated as absent (and replaced), else the torrent could never be created again.
+type storedTorrentMeta struct {
+	metadata.TorrentMeta
+	undecodable bool
+}
+
+// Deserialize loads b into m.
+func (m *storedTorrentMeta) Deserialize(b []byte) error {
+	err := m.TorrentMeta.Deserialize(b)
+	m.undecodable = err != nil
+	return err
+}
+
 // TorrentArchive is capable of initializing torrents in the download directory
 // and serving torrents from either the download or cache directory.
 type TorrentArchive struct {
@@ -74,8 +90,8 @@ func (a *TorrentArchive) Stat(namespace string, d core.Digest) (*storage.Torrent
 // disk, or downloads metainfo and initializes the file. Returns ErrNotFound
 // if no metainfo was found.
 func (a *TorrentArchive) CreateTorrent(namespace string, d core.Digest) (storage.Torrent, error) {
-	var tm metadata.TorrentMeta
-	if err := a.cads.Any().GetMetadata(d.Hex(), &tm); os.IsNotExist(err) {
+	var tm storedTorrentMeta
+	if err := a.cads.Any().GetMetadata(d.Hex(), &tm); os.IsNotExist(err) || tm.undecodable {
 		startTime := time.Now()
 		mi, err := a.metaInfoClient.Download(namespace, d)
 		if err != nil {
@@ -98,7 +114,12 @@ func (a *TorrentArchive) CreateTorrent(namespace string, d core.Digest) (storage
 			return nil, fmt.Errorf("create download file: %s", createErr)
 		}
 		tm.MetaInfo = mi
-		if err := a.cads.Any().GetOrSetMetadata(d.Hex(), &tm); err != nil {
+		if tm.undecodable {
+			// Replace the unusable file.
+			if _, err := a.cads.Any().SetMetadata(d.Hex(), &tm); err != nil {
+				return nil, fmt.Errorf("set metainfo: %s", err)
+			}
+		} else if err := a.cads.Any().GetOrSetMetadata(d.Hex(), &tm); err != nil {
 			return nil, fmt.Errorf("get or set metainfo: %s", err)
 		}
 	} else if err != nil {
